@@ -410,6 +410,28 @@ def finding_key(a, o, w, stage, ax):
     return key0 + "/" + stage
 
 
+STATS = {"judged": 0, "max_n": 0, "max_extent_bits": 0, "n>=1025": 0, "n>=10^5": 0, "n=10^6": 0, "extent>=2^53": 0,
+         "interval_bits": {}, "given_axis_derivations": {}}
+
+
+def note_judged(a, w, ax):
+    n = ax["n"]
+    ext = abs(ax["t0"]) + n * ax["dt"]
+    STATS["judged"] += 1
+    STATS["max_n"] = max(STATS["max_n"], n)
+    STATS["max_extent_bits"] = max(STATS["max_extent_bits"], ext.bit_length())
+    STATS["n>=1025"] += n >= 1025
+    STATS["n>=10^5"] += n >= 10 ** 5
+    STATS["n=10^6"] += n == 10 ** 6
+    STATS["extent>=2^53"] += ext >= 2 ** 53
+    b = "2^%d" % (10 * (int(w["dt"]).bit_length() // 10))
+    STATS["interval_bits"][b] = STATS["interval_bits"].get(b, 0) + 1
+    ad = a.get("data") or a.get("time")
+    if ad is not None:
+        k = ad.get("derive") or "ctor"
+        STATS["given_axis_derivations"][k] = STATS["given_axis_derivations"].get(k, 0) + 1
+
+
 def oracle(a, o):
     # 1. argument combinations: rejected as documented
     if a["act"] == "ut":
@@ -452,6 +474,7 @@ def oracle(a, o):
     else:
         ax = o["axis"]
     n, dt = ax["n"], ax["dt"]
+    note_judged(a, w, ax)
     # 2. the samples are t0 + i*dt with the stored interval, starting at the requested t0
     if not ax["diff_ok"] or (n > 0 and (ax["first"] != ax["t0"] or ax["last"] != ax["t0"] + (n - 1) * dt)):
         return fail("samples", "samples are not t0 + i*interval", ax)
@@ -573,7 +596,83 @@ def rate_of_interval(ts, ps):
     return float(Fraction(E12, int(ps)))
 
 
+def gen_scaled(rng):
+    """intervals / rates / starts across the whole magnitude range of the quantifier: the interval is 2^e * (1 + frac) ps for
+       e = 0..58, given as an int, a float in a random unit, a TimeArray, or through its rate; t0 of either sign up to 2^60 ps"""
+    e = rng.randint(0, 58)
+    ps = max(1, int(2 ** e * (1 + rng.random())))
+    if rng.random() < 0.3:
+        ps = 2 ** e + rng.choice([0, 1, -1, 3]) if e > 2 else ps      # just around a power of two
+    nmax = max(1, min(10 ** 6, (2 ** 60) // ps))
+    n = rng.choice([1, 2, 3, 7, min(nmax, 1025), min(nmax, 4097), nmax, rng.randint(1, min(nmax, 5000))])
+    room = LIM - 1 - n * (ps + 1)
+    t0ps = rng.choice([0, 1, -1, rng.randint(-room, room), rng.choice([-1, 1]) * min(room, 2 ** rng.randint(0, 60) + 1)])
+    unit = rng.choice(UNITS)
+    k = rng.choice(["int", "float", "time", "rate", "ratefreq"])
+    a = {"act": rng.choice(["ut", "ut", "ts"]), "unit": unit}
+    if k == "int":
+        a["unit"] = "ps"
+        si = vint(ps)
+    elif k == "float":
+        si = vflt(ps / FACT[unit])
+    elif k == "time":
+        si = vtime(ps, rng.choice(UNITS))
+    else:
+        si = None
+        f = E12 / ps
+        if rng.random() < 0.5:
+            f *= 1 + rng.random() / 8          # a period with an arbitrary fractional part, at every magnitude
+        a["rate"] = vfreq(f) if k == "ratefreq" else vflt(f)
+    if si is not None:
+        a["si"] = si
+    t0 = rng.choice([vtime(t0ps, rng.choice(UNITS)), vint(t0ps // FACT[a["unit"]]), vflt(t0ps / FACT[a["unit"]])])
+    if a["act"] == "ut":
+        a["length"] = n
+        a["t0"] = t0
+    else:
+        a["len"] = n
+        if rng.random() < 0.7:
+            a["t0"] = t0
+    return a
+
+
+def sweep_actions():
+    """deterministic cases run in every tier: the sizes the quantifier names (just above powers of two, primes, 10^6) for
+       each way of fixing the count, and extents at the edges 2^53 and 2^62 ps"""
+    out = []
+    for n in SIZES:
+        out += [
+            {"act": "ut", "unit": "ms", "t0": vint(-3), "si": vint(2), "length": n},
+            {"act": "ut", "unit": "us", "t0": vflt(0.5), "si": vflt(2.2), "length": n},
+            {"act": "ut", "unit": "s", "rate": vflt(3.0), "length": n},
+            {"act": "ut", "unit": "ns", "si": vint(3), "duration": vint(3 * n - 1)},        # n multiples fit
+            {"act": "ut", "unit": "s", "rate": vint(1000), "duration": vflt(n / 1000.0)},
+            {"act": "ts", "len": n, "unit": "ms", "si": vflt(0.81327), "t0": vint(7)},
+            {"act": "ts", "len": n, "unit": "s", "rate": vint(44100)},
+            {"act": "ts", "len": n, "unit": "s", "time": {"derive": "npcopy", "unit": "ms", "t0": 1, "dt": 2, "n": n}},
+        ]
+    for ext in (2 ** 53 - 1, 2 ** 53 + 1, 2 ** 60 + 1, 2 ** 62 - 2 ** 33):
+        for n in (3, 1025, 99991, 10 ** 6):
+            ps = ext // n
+            t0 = -(2 ** 61) if ext < 2 ** 61 else 0
+            out += [
+                {"act": "ut", "unit": "ps", "t0": vint(t0), "si": vint(ps), "length": n},
+                {"act": "ut", "unit": "s", "t0": vtime(t0, "h"), "si": vtime(ps, "ms"), "length": n, "positional": True},
+                {"act": "ts", "len": n, "unit": "ps", "t0": vtime(t0, "ps"), "si": vtime(ps, "ps")},
+            ]
+    return out
+
+
 def gen_action(rng, ts):
+    a = gen_action0(rng, ts)
+    if rng.random() < 0.15:
+        a["positional"] = True
+    return a
+
+
+def gen_action0(rng, ts):
+    if rng.random() < 0.14:
+        return gen_scaled(rng)
     r = rng.random()
     unit = rng.choice(UNITS + [None, None])
     if r < 0.07:      # any argument pattern (valid or not), with or without an axis
@@ -782,7 +881,8 @@ def run(ctx):
                                          a["pattern"], "accepted" if row[-1] else "rejected"),
                                      row[-1], want, {"entry_point": "constructor argument pattern", "probe": a}))
     n = ctx.scale(2500, 30000)
-    actions = corpus_actions()
+    actions = corpus_actions() + sweep_actions()
+    n += len(actions)
     while len(actions) < n:
         a = gen_action(ctx.rng, ts)
         if not too_big(a):
@@ -795,6 +895,7 @@ def run(ctx):
             f.replay = {"entry_point": "nitime.timeseries." + ctor_name(c.replay["action"]), "model_disagrees": i in bad}
             ctx.report_fail(f, c)
     ctx.extra["model_impl_disagreements"] = len(bad)
+    ctx.extra["oracle_coverage"] = STATS
     ctx.extra["tspec_tables"] = {"UniformTime": ut, "TimeSeries": tsv}
     ctx.extra["rule"] = ("seeded generator over the UniformTime / TimeSeries constructors: all argument patterns (valid and invalid, "
                          "with and without an existing axis), int / float / TimeArray / Frequency arguments, 9 units + None + invalid, "
